@@ -107,6 +107,9 @@ def poolStep (st : PoolSt) (op : List String) (env : List (Option Nat)) : PoolSt
     | ["t_dealloc_array", a, c, s] => presPool st (p.traitsDeallocateArray cfg (nat! a) (nat! c) (nat! s))
     | ["t_try_alloc_node", s, al] => presPool st (p.traitsTryAllocateNode (nat! s) (nat! al))
     | ["t_try_alloc_array", c, s, al] => presPool st (p.traitsTryAllocateArray (nat! c) (nat! s) (nat! al))
+    | ["t_try_dealloc_node", a, s, al] => presPool st (p.traitsTryDeallocateNode cfg (nat! a) (nat! s) (nat! al))
+    | ["t_try_dealloc_array", a, c, s, al] =>
+      presPool st (p.traitsTryDeallocateArray cfg (nat! a) (nat! c) (nat! s) (nat! al))
     | "bad_dealloc_node" :: a :: _ => (st, badClass (p.deallocateNode cfg (nat! a)).out, "", p.str)
     | ["capacity_left"] => (st, (Out.num p.capacityLeft).str, "", p.str)
     | ["next_capacity"] => (st, (Out.num p.nextCapacity).str, "", p.str)
@@ -175,6 +178,11 @@ def collStep (st : PoolSt) (op : List String) (env : List (Option Nat)) : PoolSt
     | ["t_alloc_array", n, s, al] => presColl st (c.traitsAllocateArray cfg (nat! n) (nat! s) (nat! al) env)
     | ["t_dealloc_node", a, s] => presColl st (c.traitsDeallocateNode cfg (nat! a) (nat! s))
     | ["t_dealloc_array", a, n, s] => presColl st (c.traitsDeallocateArray cfg (nat! a) (nat! n) (nat! s))
+    | ["t_try_alloc_node", s, al] => presColl st (c.traitsTryAllocateNode cfg (nat! s) (nat! al))
+    | ["t_try_alloc_array", n, s, al] => presColl st (c.traitsTryAllocateArray cfg (nat! n) (nat! s) (nat! al))
+    | ["t_try_dealloc_node", a, s, al] => presColl st (c.traitsTryDeallocateNode cfg (nat! a) (nat! s) (nat! al))
+    | ["t_try_dealloc_array", a, n, s, al] =>
+      presColl st (c.traitsTryDeallocateArray cfg (nat! a) (nat! n) (nat! s) (nat! al))
     | ["reserve", s, cap] => presColl st (c.reserveOp cfg (nat! s) (nat! cap) env)
     | ["pool_capacity_left", s] => (st, (Out.num (c.poolCapacityLeft (nat! s))).str, "", c.str)
     | ["capacity_left"] => (st, (match c.capacityLeft with | some n => (Out.num n).str | none => "crash"), "", c.str)
